@@ -67,7 +67,8 @@ def main():
                 ov = {"Replace": {f: "" for f in others}}
                 ovf = f"{cw}/.ov.json"
                 json.dump(ov, open(ovf, "w"))
-                rc, o = run(["go", "test", "-vet=off", "-count=1", "-overlay", ovf, "-run", "TestZZDemo", "./" + pkgdir], cw)
+                race = ["-race"] if os.environ.get("SEED_RACE") else []  # demonstrations of data races need the race detector
+                rc, o = run(["go", "test", "-vet=off", "-count=1"] + race + ["-overlay", ovf, "-run", "TestZZDemo", "./" + pkgdir], cw)
                 res[d] = rc
                 meta["ran"].append({"cmd": f"go test -run TestZZDemo ./{pkgdir} ({tag})", "exit": rc, "tail": o[-400:]})
                 os.remove(f"{cw}/{d}")
